@@ -5,7 +5,7 @@ tiling arithmetic for all u32 sizes). Conformance: every (container kind, view s
 up to a bound plus seeded split-of-split compositions are executed; TLC judges every part's tags and the
 write-through of every mutable part."""
 import random
-import vlib
+import vlib, rz
 
 RO_KINDS = ["typed", "typed_ref", "typed_crop", "typed_crop_mut", "nested"]
 MUT_KINDS = ["typed", "typed_crop_mut", "nested_mut"]
